@@ -75,7 +75,7 @@ class KernelProp(Prop):
         if len(mo) != len(impl):
             return f"model answered {len(mo)} steps, implementation {len(impl)}"
         for i, (m, r) in enumerate(zip(mo, impl)):
-            if m["res"] != sorted_tasks(r["res"]) or m["ev"] != r["ev"]:
+            if [canon_all(x) for x in m["res"]] != sorted_tasks(r["res"]) or m["ev"] != r["ev"]:
                 return (f"step {i} {case['ops'][i]}: model {m} vs implementation {r}")
         return None
 
@@ -158,4 +158,13 @@ def op_kinds(case: dict[str, Any]) -> list[str]:
 
 
 def sorted_tasks(res: list[str]) -> list[str]:
+    res = [canon_all(r) for r in res]
     return [r for r in res if not r.startswith("task ")] + sorted(r for r in res if r.startswith("task "))
+
+
+def canon_all(r: str) -> str:
+    """get_resources() returns a mapping: the order of its items is nobody's promise."""
+    if r.startswith("all [") and r.endswith("]"):
+        body = r[5:-1]
+        return "all [" + ", ".join(sorted(body.split(", "))) + "]" if body else r
+    return r
